@@ -88,9 +88,7 @@ def dict_verdict(d, ignore_lattice, require_lattice):
     if require_lattice and 'lattice' not in d:
         reasons.append('lattice_required')
     if lattice is not None and len(lattice) == 0:
-        if ignore_lattice:
-            return 'unspecified', None      # property does not say whether an ignored empty lattice counts
-        reasons.append('empty_lattice')
+        reasons.append('empty_lattice')     # "rejects ... an empty stored lattice": no exemption for ignore_lattice
     m = len(properties)
     for r in context:
         if any(i < 0 or i >= m for i in r):
